@@ -11,8 +11,27 @@ def run(ctx):
         "division dispatch",
     ]
     ctx.lean(props=["Props.C01"], drivers=["drv_c01"])
+    # The full division statement (C01.divMod_spec_Statement) is proved from three named kernel contracts
+    # (divMod_spec_partial).  The contracts themselves are not proved: they are listed as open obligations so that the
+    # discharged/obligations ratio does not overstate the proof.
+    for k, what in (("U128.Divlu64Spec", "divmod128by64 (Knuth D on 32-bit digits) returns floor quotient and remainder"),
+                    ("U128.Div128Spec", "estimate-and-correct branch of divmod128by128 (divisor wider than a word)"),
+                    ("U128.DivBinSpec", "divmod128bin (shift-and-subtract), word-level bridge to the proved loop")):
+        ctx.theorems.append({"name": "C01.divMod_spec_Statement needs " + k + " [open: " + what + "]",
+                             "axioms": None, "ok": False})
+    ctx.assumptions += [
+        "Division: dispatch, /0 panic, /1, 64-bit fast path, power-of-two path, u<n, u=n, Div/Mod = components of "
+        "DivMod, the ...64 entry points = the 128-bit ones on the zero-extended divisor, and the high/low split of the "
+        "word-divisor case are proved.  The three kernels (divmod128by64, the estimate branch of divmod128by128, "
+        "divmod128bin) are covered by the named hypotheses Divlu64Spec / Div128Spec / DivBinSpec of "
+        "C01.divMod_spec_partial and by the correspondence run only (every path and every correction count is hit on "
+        "each run: tag_histogram).",
+        "Signed Div/Mod/DivMod (sign fix-up around the unsigned routines) is transcribed and compared with the "
+        "implementation on every run; only the panic behaviour (idiv_zero_panics) and the building blocks "
+        "(neg/abs/lessThan vs toInt) are proved, not the Int.tdiv/tmod statement.",
+    ]
     ctx.harness("./cmd/c01")
-    ctx.diff(area="int128", driver="drv_c01", n={"quick": 200000, "thorough": 12000000},
+    ctx.diff(area="int128", driver="drv_c01", n={"quick": 200000, "thorough": 20000000},
              trivial=lambda l, o: False,
              theorem="C01.* (model = Z mod 2^128 specification); impl != model on this input")
     _paths(ctx)
